@@ -728,7 +728,12 @@ def m_len(px, st, fr, ev):
        reason="is_empty(x) == (len(x) == 0)")
 def m_is_empty(px, st, fr, ev):
     s = seq_of(px, st, ev["args"][0])
-    t = mk_binop("Eq", len_term(s), const(0))
+    ln = len_term(s)
+    if isinstance(ln, tuple) and ln[0] == "binop" and ln[1] == "Sub":
+        # length of a sub-slice s[a..b] is b - a with a <= b (the slice exists): empty iff a == b
+        t = mk_binop("Eq", ln[2], ln[3])
+    else:
+        t = mk_binop("Eq", ln, const(0))
     return val(st.cons.lookup(t))
 
 
@@ -818,6 +823,81 @@ def install(extra=None):
     if extra:
         m.update(extra)
     return m
+
+
+@model("core::str::<impl str>::parse", reason="s.parse::<uN>() is <uN as FromStr>::from_str(s): rewritten to that call")
+def m_str_parse(px, st, fr, ev):
+    import re
+    m = re.match(r"std::result::Result<(u8|u16|u32|u64|usize), ", ev["dest"]["ty"].get("s", ""))
+    if not m:
+        return None
+    name = "core::num::<impl std::str::FromStr for %s>::from_str" % m.group(1)
+    ev["names"] = set(ev["names"]) | {"std::str::FromStr::from_str", name}
+    ev["callee"] = dict(ev["callee"], res_path=name, path="std::str::FromStr::from_str", via="str::parse")
+    a, sn = ev["args"][0], ev["snap"][0]
+    ca = ("&", sn) if a[0] == "ref" and sn is not None else (("&", a[1]) if a[0] == "refconst" else a)
+    return val(("call", name, (ca,), ev["uid"]))
+
+
+@model("std::ops::Range::<Idx>::is_empty", reason="Range::is_empty: !(start < end)")
+def m_range_is_empty(px, st, fr, ev):
+    r = deref_val(px, st, ev["args"][0], depth=1)
+    s = agg_get(r, "start") if is_agg(r) else ("field", r, "start")
+    e = agg_get(r, "end") if is_agg(r) else ("field", r, "end")
+    lt = st.cons.lookup(mk_binop("Lt", s, e))
+    if is_const(lt):
+        return val(const(1 - lt[1]))
+    return [
+        {"label": "start<end", "value": FALSE, "assume": (lambda c: c.set_known(lt, 1))},
+        {"label": "start>=end", "value": TRUE, "assume": (lambda c: c.set_known(lt, 0))},
+    ]
+
+
+@model("core::str::<impl str>::split_once", reason="split_once(ch): Some((s[..h], s[h+1..])) with h the first match; None if absent")
+def m_split_once(px, st, fr, ev):
+    seq = seq_of(px, st, ev["args"][0])
+    needle = ev["args"][1]
+    f = ("found", seq, needle, ev["uid"], "str::split_once")
+    ev["found"] = f
+    h = payload(f, "Some")
+    TY.setdefault(h, (64, False))
+    a = ("slice_of", ("slice", seq, const(0), h))
+    b = ("slice_of", ("slice", seq, add_terms(h, const(1)), None))
+    tup = agg("tuple", None, None, (("0", a), ("1", b)))
+    return [
+        {"label": "found", "value": some(tup), "assume": (lambda c: c.set_variant(f, "Some"))},
+        {"label": "absent", "value": NONE, "assume": (lambda c: c.set_variant(f, "None"))},
+    ]
+
+
+_ASCII_PREDS = {
+    "is_ascii_digit": lambda c: 48 <= c <= 57,
+    "is_ascii_hexdigit": lambda c: 48 <= c <= 57 or 65 <= c <= 70 or 97 <= c <= 102,
+    "is_ascii_alphabetic": lambda c: 65 <= c <= 90 or 97 <= c <= 122,
+    "is_ascii_alphanumeric": lambda c: 48 <= c <= 57 or 65 <= c <= 90 or 97 <= c <= 122,
+    "is_ascii_uppercase": lambda c: 65 <= c <= 90,
+    "is_ascii_lowercase": lambda c: 97 <= c <= 122,
+    "is_ascii_whitespace": lambda c: c in (9, 10, 12, 13, 32),
+    "is_ascii_graphic": lambda c: 33 <= c <= 126,
+    "is_ascii_punctuation": lambda c: 33 <= c <= 47 or 58 <= c <= 64 or 91 <= c <= 96 or 123 <= c <= 126,
+    "is_ascii_control": lambda c: c <= 31 or c == 127,
+    "is_ascii": lambda c: c <= 127,
+}
+
+
+def _ascii_pred(px, st, fr, ev):
+    """u8 / char classification predicates: folded on a constant argument, otherwise an uninterpreted call"""
+    nm = ev["callee"]["path"].split("::")[-1]
+    a = deref_val(px, st, ev["args"][0], depth=2)
+    if is_const(a) and isinstance(a[1], int) and nm in _ASCII_PREDS:
+        return val(const(int(_ASCII_PREDS[nm](a[1]))))
+    return None
+
+
+for _ty in ("u8", "char"):
+    for _nm in _ASCII_PREDS:
+        model("core::num::<impl %s>::%s" % (_ty, _nm) if _ty == "u8" else "core::char::methods::<impl char>::%s" % _nm,
+              reason="ASCII classification predicate (std documentation); folded on constants")(_ascii_pred)
 
 
 # ------------------------------------------------------------------ searching / slicing
